@@ -142,19 +142,18 @@ class ReactionSummary(Summary):
         """
 
         if "minimum" in self._flux.columns and "maximum" in self._flux.columns:
-            frame = self._flux.loc[
-                (self._flux["flux"].abs() >= threshold)
-                | (self._flux["minimum"].abs() >= threshold)
-                | (self._flux["maximum"].abs() >= threshold),
-                :,
-            ].copy()
+            frame = self._flux[["flux", "minimum", "maximum"]]
+            # Values below the threshold are shown as zero.
+            frame = frame.where(frame.abs() >= threshold, 0.0)
             return (
                 f"{frame.at[self._reaction.id, 'flux']:{float_format}} "
                 f"[{frame.at[self._reaction.id, 'minimum']:{float_format}}; "
                 f"{frame.at[self._reaction.id, 'maximum']:{float_format}}]"
             )
         else:
-            frame = self._flux.loc[self._flux["flux"].abs() >= threshold, :].copy()
+            frame = self._flux[["flux"]]
+            # Values below the threshold are shown as zero.
+            frame = frame.where(frame.abs() >= threshold, 0.0)
             return f"{frame.at[self._reaction.id, 'flux']:{float_format}}"
 
     def to_string(
